@@ -55,6 +55,22 @@ CHECKS = {
 }
 
 CHECKS.update({
+    'C12': dict(
+        level='other', technique='scenario evaluation on the CFGs of the emitter\'s document states and scalar writers (three-valued, '
+                                 'event class and option values as constants), state-machine / pushdown models of emitter and parser '
+                                 'compared with the documented grammars, per-document reset by post-dominance',
+        design='DESIGN.md 4/C12',
+        text='Decides the structural clauses of both sides without which documents of a stream run together, are split or are '
+             'dropped: every document after the first is introduced by "---", an explicit end writes "...", an open-ended last '
+             'document is closed before the stream ends; the writers of texts that only a document marker delimits (root-level plain '
+             'scalar, keep-chomped block scalar) set open_ended and a directive is written only after such a document was closed; '
+             'marker-like scalars are never plain; emitter and parser accept exactly the documented grammars for streams of several '
+             'documents (bounded sentence length); the look-ahead that decides a document\'s text stays inside the document; '
+             'per-document state is reset; document markers are recognised at column 0 only; one document per iteration step. '
+             'Equality of each document with its input for every option set (text fidelity of the scalar writers) and libyaml\'s '
+             'own emitter are NOT decided.',
+        note=TRUST + 'Earlier sessions listed C12 as not applicable; the clauses above became available as general rules in round 10 '
+             '(DESIGN 4/C12, 12.2e). The claim is for these clauses, not for round-trip equality.'),
     'C03': dict(
         level='other', technique='raise-set resolution, guard-idiom dominance, per-character abstract interpretation of scanner loops',
         design='DESIGN.md 4/C03',
@@ -236,10 +252,6 @@ ADDENDA = {
 }
 
 NOT_APPLICABLE = {
-    'C12': 'Whether ---/... are written where needed depends on run-time values (open_ended, explicit/version/tags of the '
-           'event, the last scalar\'s text and style, and one case inside libyaml); there is no invariant of the code\'s shape '
-           'that is both necessary and not a frozen copy of today\'s statements. The structural parts that exist (one '
-           'DocumentStart..DocumentEnd bracket per serialize call, per-document reset) are claimed under C02/C11.',
     'C20': 'The property is defined by interpreter-level call counts at sizes n, 2n, 4n - a run-time quantity. A static '
            'complexity bound would need loop-bound/amortisation reasoning not in reach, and a lint for "quadratic idioms" is a '
            'ranked heuristic that fires on today\'s correct code. The one structural anchor (simple-key window) is checked '
